@@ -330,3 +330,8 @@ MUTATIONS += [
       find="            if Some(info.blueprint_info.blueprint_id.clone()) != actor.blueprint_id() {",
       replace="            if actor.blueprint_id() != Some(info.blueprint_info.blueprint_id.clone()) {"),
 ]
+MUTATIONS += [
+ dict(name="benign-c07-advance-modular-correct", props=["C07"], benign=True, file="radix-engine/src/blueprints/transaction_tracker/package.rs",
+      find="        self.start_partition = if self.start_partition == self.partition_range_end_inclusive {\n            self.partition_range_start_inclusive\n        } else {\n            self.start_partition + 1\n        };",
+      replace="        let num_partitions =\n            self.partition_range_end_inclusive - self.partition_range_start_inclusive + 1;\n        let offset = old_start_partition - self.partition_range_start_inclusive;\n        self.start_partition = self.partition_range_start_inclusive + (offset + 1) % num_partitions;"),
+]
